@@ -164,6 +164,18 @@ def check_C(S, p):
             if t5.rc != 0 or t5.out != base.out:
                 S.viol("C09:unlisted-influence", "[%s] junk genotypes in UNLISTED samples changed the run: rc %s stdout %r stderr %r" % (tag, t5.rc, t5.out[:150], t5.err[:200]),
                        dict(wit, twin_vcf=cs5.to_vcf().decode()[:20000], replay=R.same(base, t5)))
+        # twin 6: the same samples file with other line conventions (CRLF, missing final terminator)
+        body = [(s_ if q is None else "%s\t%s" % (s_, q)) for s_, q in smap]
+        for eol, final in (("\r\n", True), ("\r\n", False), ("\n", False)):
+            content = eol.join(body) + (eol if final else "")
+            f6 = E.tmpfile(content.encode(), ".samples")
+            args6 = ["create", "-S", f6]
+            t6 = cli.sfs(args6, stdin=data)
+            S.count("C_twin_runs")
+            S.count("C_samples_file_line_conventions")
+            if t6.rc != base.rc or t6.out != base.out:
+                S.viol("C09:samples-file-eol", "[%s] samples file with %r line ends%s differs from --samples: rc %s stdout %r stderr %r" % (
+                    tag, eol, "" if final else " and no final terminator", t6.rc, t6.out[:120], t6.err[:200]), dict(wit, replay=R.same(base, t6)))
         sizes = G.pop_sizes([(s, q) for s, q in dict(smap).items()])
         S.case(key=digest([E.codes(cs), E.map_json(smap)]), nontrivial=len(exp.shape) >= 2 and (len(set(exp.shape)) > 1 or td != [int(x) for x in exp.cells]))
         if i == 0 and p["i"] == 0:
